@@ -43,20 +43,23 @@ Section Tape.
   Definition set_ops (g : gstate) (ops : list opinfo) : gstate :=
     {| g_ops := ops; g_log := g_log g; g_blog := g_blog g |}.
 
-  Definition get_slot (g : gstate) (a : nat * nat) : option slot :=
-    match nth_error (g_ops g) (fst a) with
+  Definition get_slot_ops (ops : list opinfo) (a : nat * nat) : option slot :=
+    match nth_error ops (fst a) with
     | Some oi => nth_error (o_rets oi) (snd a)
     | None => None
     end.
-  Definition upd_slot (g : gstate) (a : nat * nat) (f : slot -> slot) : gstate :=
-    match nth_error (g_ops g) (fst a) with
+  Definition upd_ops (ops : list opinfo) (a : nat * nat) (f : slot -> slot) : list opinfo :=
+    match nth_error ops (fst a) with
     | Some oi =>
       match nth_error (o_rets oi) (snd a) with
-      | Some s => set_ops g (set_nth (g_ops g) (fst a) (set_rets oi (set_nth (o_rets oi) (snd a) (f s))))
-      | None => g
+      | Some s => set_nth ops (fst a) (set_rets oi (set_nth (o_rets oi) (snd a) (f s)))
+      | None => ops
       end
-    | None => g
+    | None => ops
     end.
+  Definition get_slot (g : gstate) (a : nat * nat) : option slot := get_slot_ops (g_ops g) a.
+  Definition upd_slot (g : gstate) (a : nat * nat) (f : slot -> slot) : gstate :=
+    set_ops g (upd_ops (g_ops g) a f).
 
   (* CHECK_NODE(n) for a node (graph id, oid, vid) against graph [me]:
      other graph -> Error; out of range -> std::abort() *)
